@@ -25,7 +25,7 @@ write refers to no existing file, and file ids are fresh from `nextFid` on. -/
 structure Start (w : World) (st : ExecSt) (orig : Bytes) : Prop where
   srcOpen : ∃ h, st.src.dirH = some h ∧ w.dirPath h = some st.src.path
   bound : ∃ fid, w.lookup st.src.path st.ms.name = some fid ∧
-    w.file fid = some { data := orig, durable := orig, mtime := (w.file fid).map (·.mtime) |>.getD 0 }
+    w.file fid = some { data := orig, durable := orig }
   noWriters : ∀ h fid off, w.obj h ≠ .file fid off true
   noStreams : ∀ h fid buf, w.obj h ≠ .stream fid buf
   freshIds : ∀ p, p ∈ w.files → p.1 < w.nextFid
